@@ -14,9 +14,10 @@ ENTRY = dict(
                   "c12_dag_rfr_semantics", "c12_dag_rfr_dropped_iff", "c12_dag_rfr_fix_semantics",
                   "c12_dag_rfr_fix_is_fixed_point", "c12_dag_equiv_final", "c12_dag_equiv_consolidate",
                   "c12_dag_equiv_consolidate_rest",
-                  "c12_facts_pipeline", "c12_facts_scans", "c12_facts_dag"],
+                  "c12_site_only_resets", "c12_site_semantics_observed", "c12_site_semantics_placeholder",
+                  "c12_facts_pipeline", "c12_facts_scans", "c12_facts_dag", "c12_facts_sites"],
         allowed_axioms=[],
-        facts=["reset_pipeline_order", "reset_scan_shapes", "reset_dag_calls"],
+        facts=["reset_pipeline_order", "reset_scan_shapes", "reset_dag_calls", "reset_call_sites"],
         harness="c12",
         level_text="Unbounded theorems (all circuits, all qubit/clbit counts, by induction) about executable models of the three list scans "
                    "(_consolidate_resets, _remove_resets_in_zero_state, _remove_final_resets, with flags, early exits and index deletion), their "
@@ -24,9 +25,13 @@ ENTRY = dict(
                    "point) and ConsolidateResets: each deletes only Reset instructions (all else kept in order); consolidation and zero-state "
                    "removal leave the whole symbolic denotation (every classical bit, every wire) unchanged; final-reset removal leaves every "
                    "classical bit and every wire unchanged except the wires q < nq whose last instruction is a reset, which the original leaves "
-                   "in |0>; the DAG fixed point equals the list pass, ConsolidateResets equals _consolidate_resets on every wire. Closed under "
+                   "in |0>; the DAG fixed point equals the list pass, ConsolidateResets equals _consolidate_resets on every wire; the call sites "
+                   "inside generate_cutting_experiments (pipeline, and final-reset removal before the placeholder measurement of an identity "
+                   "sub-observable) leave every classical bit unchanged except the placeholder's own, ignored, bit. Closed under "
                    "the global context. The models are run against the implementation on every program of length <= 4 (thorough: <= 5) over a "
-                   "10-letter alphabet plus random circuits, and every case is also simulated by an independent density-matrix oracle.",
+                   "10-letter alphabet (plus its symmetric 13-letter completion one length shorter), random circuits in three call forms (in place, "
+                   "inplace=False, applied twice), and end to end on the subexperiments of generate_cutting_experiments for small wire-cut "
+                   "problems; every case is also simulated by an independent density-matrix oracle.",
         level_note=STD_NOTE + "No axioms. 'Same statistics' is proved as equality of Herbrand wire-history terms (Common/Herbrand.v); that equal "
                    "terms give equal joint laws/conditional states under density-matrix semantics is modelling assumption M1, cross-checked "
                    "numerically on every generated case by the harness simulator (oracle contract), not proved.",
@@ -37,6 +42,15 @@ ENTRY = dict(
             "M1: a compositional (density-matrix) semantics factors through the Herbrand denotation; initial and reset wires are the same term Zero",
             "well-formedness hypothesis of the semantic theorems: qubit/clbit indices in range, Reset on exactly one qubit and no clbit, Measure one "
             "qubit and one clbit; conditional (c_if / control-flow) resets are outside the property's quantifier and outside the model",
+            "OBSERVATION (outside the quantifier 'gates, mid-circuit measurements, resets and barriers'; not modelled, not checked, recorded in the "
+            "harness histograms observation.*): conditional resets are treated as unconditional by BOTH halves - _consolidate_resets keeps a "
+            "leading reset(q).c_if(c,1) and deletes the unconditional reset after it; ConsolidateResets deletes an unconditional reset that is "
+            "followed by a conditional one - each changes the classical-bit law",
+            "OBSERVATION (outside the quantifier): the list passes recognise a reset by operation.name == 'reset', the transpiler passes by "
+            "isinstance(op, Reset); on a non-Reset instruction named 'reset' (h q; Instruction('reset',1,0,[])) _remove_final_resets deletes "
+            "it and RemoveFinalReset does not, so the two are not equivalent there",
+            "at the guarded call site the placeholder measurement's bit (observable_measurements[0] of an identity sub-observable) changes; that "
+            "reconstruction ignores this bit is C01/C19's business; C12 proves and checks only the other classical bits there",
             "the DAG is modelled by the instruction list: predecessor of a wire's output node = last instruction on that wire, successor of a "
             "node on its wire = next instruction on that wire",
         ],
